@@ -103,7 +103,7 @@ def dead_end_record(cfg, seed, target, res):
         d, node, p, (fname, tnode) = calls[i][3], calls[i + 1][3], calls[i + 2][3], calls[i + 3][3]
         c = max(k for k in range(len(offsets)) if offsets[k] <= node)
         events.append({"site": [c + 1, node - offsets[c] + 1], "d": parse_desc(d), "p": parse_desc(p),
-                       "f": names.index(fname) + 1, "t": tnode + 1})
+                       "f": names.index(fname) + 1, "t": tnode + 1, "o2": 2 * parse_desc(d)[2]})   # no molecule to read the bond from
         offsets.append(offsets[-1] + natoms[copies[-1] - 1])
         copies.append(names.index(fname) + 1)
         i += 4
@@ -154,7 +154,7 @@ def observe(cfg, seed, target, lr=None):
         e = mine[0]
         a, b = (e[0], e[1]) if atom_of[e[0]][0] < atom_of[e[1]][0] else (e[1], e[0])
         events.append({"site": list(atom_of[a]), "d": parse_desc(e[3][0]), "p": parse_desc(e[3][1]),
-                       "f": copy_frag[c], "t": atom_of[b][1]})
+                       "f": copy_frag[c], "t": atom_of[b][1], "o2": e[2]})
     if len(inter) != len(copies) - 1:
         tree_ok = False
     final_open = [[atom_of[n["id"]][0], atom_of[n["id"]][1], triples(n["desc"])] for c in copies for n in heavy[c]]
